@@ -385,7 +385,7 @@ func (h *http2FrameTracer) traceHeaderLocked(data []byte) (int, bool) {
 	h.frame.Write(h.prefix)
 	h.prefix = h.prefix[:0]
 	if h.expecting == 0 {
-		return need, h.emitFrame()
+		return need, h.frameComplete()
 	}
 	return need, true
 }
@@ -402,7 +402,20 @@ func (h *http2FrameTracer) traceFrameLocked(data []byte) (int, bool) {
 	h.frame.Write(data[:need])
 	h.expecting = 0
 	h.actual = 0
-	return need, h.emitFrame()
+	return need, h.frameComplete()
+}
+
+// frameComplete is called when another complete frame has been added to h.frame.
+func (h *http2FrameTracer) frameComplete() bool {
+	switch h.header.Type {
+	case http2.FrameHeaders, http2.FramePushPromise, http2.FrameContinuation:
+		if !h.header.Flags.Has(http2.FlagHeadersEndHeaders) {
+			// The header block goes on in a CONTINUATION frame, which the
+			// framer must be able to read along with the frame(s) so far.
+			return true
+		}
+	}
+	return h.emitFrame()
 }
 
 func (h *http2FrameTracer) emitFrame() bool {
